@@ -17,6 +17,6 @@ if [ -n "$VERIF_MUTANT_TABLES" ]; then
   rsync -a --delete /verif/lean/ "$W/lean/"
   VERIF_REPO="$SRC" VERIF_LEAN="$W/lean" VERIF_HARNESS="$H" VERIF_OUT="$O" ./check "$PID" --tier "$TIER" | tail -12
 else
-  VERIF_HARNESS="$H" VERIF_OUT="$O" VERIF_NO_TABLES=1 ./check "$PID" --tier "$TIER" | tail -8
+  VERIF_REPO="$SRC" VERIF_HARNESS="$H" VERIF_OUT="$O" VERIF_NO_TABLES=1 ./check "$PID" --tier "$TIER" | tail -8
 fi
 echo "(replays and evidence of this trial under $O; harness copy $H — remove $W when done)"
